@@ -1239,18 +1239,21 @@ def load_func_for_dataclass(
             catch_all_def = f'{{k: o[k] for k in o if k not in aliases}}'
 
             if catch_all_field.endswith('?'):  # Default value
-                with fn_gen.if_('len(o) != i'):
-                    fn_gen.add_line(f'init_kwargs[{catch_all_field_stripped!r}] = {catch_all_def}')
+                # Note: `len(o) != i` is only a fast check, ex. it is also
+                # true if `o` has more than one alias for the same field;
+                # so confirm that we actually have any unknown key(s).
+                with fn_gen.if_(f'len(o) != i and (catch_all := {catch_all_def})'):
+                    fn_gen.add_line(f'init_kwargs[{catch_all_field_stripped!r}] = catch_all')
             else:
                 var = f'__{catch_all_field_stripped}'
                 fn_gen.add_line(f'{var} = {{}} if len(o) == i else {catch_all_def}')
                 vars_for_fields.insert(catch_all_idx, var)
 
         elif set_aliases:  # warn / raise on unknown key
-            line = 'extra_keys = set(o) - aliases'
-
-            with fn_gen.if_('len(o) != i'):
-                fn_gen.add_line(line)
+            # Note: `len(o) != i` is only a fast check, ex. it is also
+            # true if `o` has more than one alias for the same field;
+            # so confirm that we actually have any unknown key(s).
+            with fn_gen.if_('len(o) != i and (extra_keys := set(o) - aliases)'):
                 if should_raise:
                     # Raise an error here (if needed)
                     new_locals['UnknownKeysError'] = UnknownKeysError
